@@ -5,6 +5,7 @@ import Driver.C10
 import Driver.C11
 import Driver.C15
 import Driver.C01
+import Driver.C02
 open Lean Driver
 
 def handlers : List (String × Handler) := [
@@ -13,7 +14,8 @@ def handlers : List (String × Handler) := [
   ("C10", Driver.C10.handle),
   ("C11", Driver.C11.handle),
   ("C15", Driver.C15.handle),
-  ("C01", Driver.C01.handle)
+  ("C01", Driver.C01.handle),
+  ("C02", Driver.C02.handle)
 ]
 
 def processLine (line : String) : String :=
